@@ -147,6 +147,8 @@ PCall(e) ==
                 c |-> IF e.op \in {"setctx", "clearctx"} THEN e.c ELSE 0,
                 k |-> IF e.op = "setroutine" THEN e.f ELSE IF e.op = "setstate" THEN e.s ELSE 0,
                 canc |-> FALSE, cclk |-> clk + 1, t |-> now, sup |-> FALSE,
+                \* no other call that changes the container was in flight when this one was issued
+                solo |-> ~\E d \in DOMAIN calls : ~calls[d].done /\ calls[d].op # "waitexited",
                 nilok |-> IF w THEN NilOK(e.rin, EffCtx, prt, status) ELSE FALSE,
                 errok |-> IF w THEN ErrOK(EffCtx, prt, status) ELSE {},
                 done |-> FALSE]
@@ -211,6 +213,16 @@ PRet(e) ==
     /\ calls' = Refresh([calls EXCEPT ![e.id].done = TRUE, ![e.id].sup = sup], IF pctx2 \in rootdead THEN 0 ELSE pctx2, prt2, status2)
     /\ Tick
     /\ bad' = bad \cup (IF calls[e.id].done THEN {"Harness"} ELSE {})
+         \* C14 "SetContext with restart=true [re-runs] one that returned an error ... and nothing else": the
+         \* container's own context is given again, alone (no other call in flight from its start to its
+         \* return), while the current instance -- entered under that context before the call, still inside the
+         \* function, so it has not returned anything -- is running: nothing may be stopped or re-run, the
+         \* call reports no change
+         \cup (LET q == Latest IN
+               IF ~td /\ ~cfg.burst /\ c.op = "setctx" /\ e.changed /\ c.c # 0 /\ c.c = pctx /\ c.c \notin rootdead
+                  /\ c.solo /\ (\A d \in DOMAIN calls : calls[d].cclk > c.cclk => calls[d].op = "waitexited")
+                  /\ IsCurrent(q) /\ inst[q].act /\ inst[q].eclk < c.cclk /\ inst[q].tag = c.c
+               THEN {"CancelNoCause"} ELSE {})
     /\ UNCHANGED <<cfg, now, inst, ctxTouch, cbseen, boReset, boStop, rootdead, td>>
 
 \* right after a superseding call returned: which active instances still have a live context
@@ -303,11 +315,19 @@ PTick(d) ==
     /\ Tick
     /\ UNCHANGED <<pctx, prt, epoch, inst, calls, snapw, chs, credit, creditR, needEnter, ctxTouch, status, cbseen, boReset, boStop, rootdead, td, bad>>
 
+\* (op = "next": the container asked its backoff for the next interval.  "After each backoff interval ...
+\* the backoff being reset by a success": an interval is consumed by the failed exit of a current instance
+\* and by nothing else -- one that left the function, was current when it did, did not succeed, and
+\* whose exit has not been reported yet (the callbacks run after the bookkeeping section).  Not judged
+\* once the client cancelled a root context itself: instances may then fail without entering.)
 PBo(op) ==
     /\ boReset' = IF op = "reset" THEN clk + 1 ELSE boReset
     /\ boStop' = IF op = "stop" THEN clk + 1 ELSE boStop
     /\ Tick
-    /\ UNCHANGED <<cfg, now, pctx, prt, epoch, inst, calls, snapw, chs, credit, creditR, needEnter, ctxTouch, status, cbseen, rootdead, td, bad>>
+    /\ bad' = bad \cup (IF op = "next" /\ ~td /\ ~cfg.burst /\ rootdead = {}
+                           /\ ~\E i \in Insts : ~inst[i].act /\ inst[i].out # "ok" /\ inst[i].cur /\ <<1, i>> \notin cbseen
+                        THEN {"BackoffNoFailure"} ELSE {})
+    /\ UNCHANGED <<cfg, now, pctx, prt, epoch, inst, calls, snapw, chs, credit, creditR, needEnter, ctxTouch, status, cbseen, rootdead, td>>
 
 \* The client cancelled root context `tag` (every context derived from it is cancelled with it).
 PRootCancel(tag) ==
@@ -390,7 +410,7 @@ Violated == (IF NoOverlap THEN {} ELSE {"Overlap"}) \cup bad
 
 C04Names == {"Overlap", "ChEarly"}
 C05Names == {"NotCancelled", "LiveMany", "LiveOrphan", "LiveStaleCtx", "LiveStale", "StateLost"}
-C14Names == {"RerunAfterSuccess", "RerunAfterError", "RerunNoCause", "CancelNoCause", "RestartLost", "RetryLost", "BackoffNotReset",
+C14Names == {"RerunAfterSuccess", "RerunAfterError", "RerunNoCause", "CancelNoCause", "RestartLost", "RetryLost", "BackoffNotReset", "BackoffNoFailure",
              "WaitWrong", "WaitStuck", "ExitCbDup", "ExitCbFabricated", "ExitCbWrongErr", "ExitCbMissing"}
 Safe_C04 == NoOverlap /\ bad \cap C04Names = {}
 Safe_C05 == bad \cap C05Names = {}
